@@ -182,6 +182,13 @@ class Driver:
         self.bbs = {}
         self.side = None
 
+    def kept_child(self, which):
+        # built on first use (building it may itself be rejected by a broken primitive: the step then records that outcome)
+        kept = self.__dict__.setdefault("kept", {})
+        if which not in kept:
+            kept[which] = {"cell": child_cell}[which](self.mk)
+        return kept[which]
+
     def apply(self, op):
         meth, args, kw = op
         c = self.c
@@ -201,14 +208,11 @@ class Driver:
             return c.add_subcircuit(child, inst, dict(conns) if conns else None)
         if meth == "@add_sub_kept":
             which, inst, conns = args
-            kept = self.__dict__.setdefault("kept", {})
-            if which not in kept:
-                kept[which] = {"cell": child_cell}[which](self.mk)
-            return c.add_subcircuit(kept[which], inst, dict(conns) if conns else None)
+            return c.add_subcircuit(self.kept_child(which), inst, dict(conns) if conns else None)
         if meth == "@edit_kept":
             which, edits_ = args
             for m_, a_ in edits_:
-                getattr(self.kept[which], m_)(*a_)
+                getattr(self.kept_child(which), m_)(*a_)
             return None
         if meth == "@add_sub_self":
             # the circuit spliced into itself: "a renamed copy of sc" is a copy of the circuit as it is now (the reference gets one)
